@@ -14,7 +14,7 @@ NS = 'http://edxml.org/edxml'
 WATCHDOG_S = 20
 
 BYTE_FAULTS = ['flip-bit', 'delete-range', 'insert-bytes', 'duplicate-range', 'truncate', 'splice', 'replace-byte', 'swap-ranges']
-TOKEN_FAULTS = ['delete-attribute', 'empty-attribute', 'retype-attribute', 'rename-element', 'remove-child', 'duplicate-child',
+TOKEN_FAULTS = ['delete-event-attribute', 'bad-object-value', 'delete-attribute', 'empty-attribute', 'retype-attribute', 'rename-element', 'remove-child', 'duplicate-child',
                 'wrong-version', 'undefined-reference', 'remove-namespace', 'text-into-element', 'huge-number', 'negative-number',
                 'move-element']
 
@@ -44,7 +44,33 @@ def generated_doc(rng):
     return data
 
 
+def typed_doc(rng, maxlen=None, et_seed=None):
+    """A document over an event type with many data types and attachments (the C03 generators)."""
+    from vf.props import c03
+    from edxml import EDXMLWriter
+    from vf import gen
+    et = c03.gen_event_type(rng if et_seed is None else random.Random(et_seed))
+    if maxlen is not None:
+        et['props'].append({'name': 'len', 'dt': 'string:%d:mc:u' % maxlen, 'regex': None, 'optional': True, 'multivalued': False})
+    if not et['atts']:
+        et['atts'] = [{'name': 'a0', 'base64': False}]
+    o = c03.build_ontology(et)
+    buf = io.BytesIO()
+    w = EDXMLWriter(buf, validate=False)
+    w.add_ontology(o)
+    for _ in range(rng.randint(1, 4)):
+        ev = c03.valid_event(rng, dict(et, props=[p for p in et['props'] if p['dt'] in c03.GOOD_VALUE]))
+        ev.setdefault('atts', [[et['atts'][0]['name'], [['id0', 'YWJj' if et['atts'][0]['base64'] else 'text']]]])
+        if maxlen is not None:
+            ev['props'].append(['len', ['x' * rng.randint(1, 5)]])
+        w.add_event(gen.build_event(ev, 'plain'))
+    w.close()
+    return buf.getvalue()
+
+
 def seed_doc(case):
+    if case['doc'][0] == 'typed':
+        return typed_doc(random.Random(case['doc'][1]))
     if case['doc'][0] == 'corpus':
         docs = corpus_docs()
         return docs[case['doc'][1] % len(docs)][1]
@@ -93,6 +119,18 @@ def mutate_tokens(rng, data, fault):
     els = [e for e in root.iter() if isinstance(e.tag, str)]
     with_attr = [e for e in els if len(e.attrib)]
     e = rng.choice(els)
+    if fault == 'delete-event-attribute':
+        inside = [x for x in with_attr if any(local_name(a.tag) == 'event' for a in [x] + list(x.iterancestors()))]
+        if inside:
+            x = rng.choice(inside)
+            del x.attrib[rng.choice(sorted(x.attrib))]
+        return etree.tostring(root)
+    if fault == 'bad-object-value':
+        objs = [x for x in els if x.getparent() is not None and local_name(x.getparent().tag) in ('properties', 'attachments')]
+        if objs:
+            rng.choice(objs).text = rng.choice(['.50', '-.50', '', 'NaN', '1e400', '-', '٣', 'x' * 70000, ' ', '0x10', '1_0', 'true ', '--1',
+                                               '9' * 400, '=', 'é', '2020-13-45T99:99:99.000000Z', '::', '1.2.3.4.5', '...'])
+        return etree.tostring(root)
     if fault in ('delete-attribute', 'empty-attribute', 'retype-attribute', 'huge-number', 'negative-number', 'undefined-reference') and with_attr:
         e = rng.choice(with_attr)
         k = rng.choice(sorted(e.attrib))
@@ -135,6 +173,10 @@ def mutate_tokens(rng, data, fault):
     elif fault == 'text-into-element':
         e.text = rng.choice(['text', '<', ' \n ', 'é', ']]>'])
     return etree.tostring(root)
+
+
+def local_name(tag):
+    return tag.split('}', 1)[1] if isinstance(tag, str) and tag.startswith('{') else tag
 
 
 class Hang(Exception):
@@ -199,6 +241,47 @@ def run(data, mode, cuts, validate=True):
     return {'outcome': outcome, 'events': delivered['events'], 'ontologies': delivered['ontologies'], 'invalid': delivered['invalid']}
 
 
+def run_many(docs, mode):
+    """Several documents through ONE parser instance (close() makes a parser reusable)."""
+    from edxml import EDXMLPullParser, EDXMLPushParser
+    from edxml.error import EDXMLError
+    from edxml.event_validator import EventValidator
+    delivered = {'events': 0, 'ontologies': 0, 'invalid': []}
+    base = EDXMLPullParser if mode == 'pull' else EDXMLPushParser
+
+    class Prs(base):
+        def _parsed_event(self, event):
+            delivered['events'] += 1
+            try:
+                ok = EventValidator(self.get_ontology()).is_valid(event)
+            except Exception as ex:
+                ok = 'err:' + type(ex).__name__
+            if ok is not True:
+                delivered['invalid'].append([delivered['events'], ok])
+
+    outcome = 'ok'
+    p = Prs(validate=True)
+    old = signal.signal(signal.SIGALRM, _alarm)
+    signal.alarm(WATCHDOG_S)
+    try:
+        for data in docs:
+            if mode == 'pull':
+                p.parse(io.BytesIO(data))
+            else:
+                p.feed(data)
+            p.close()
+    except Hang:
+        outcome = 'hang'
+    except EDXMLError as ex:
+        outcome = 'edxml:' + type(ex).__name__
+    except Exception as ex:  # noqa
+        outcome = 'foreign:' + type(ex).__name__
+    finally:
+        signal.alarm(0)
+        signal.signal(signal.SIGALRM, old)
+    return {'outcome': outcome, 'events': delivered['events'], 'ontologies': 0, 'invalid': delivered['invalid']}
+
+
 class C15(Property):
     id = 'C15'
     title = 'Damaged or hostile input fails safely with an EDXML error'
@@ -234,14 +317,23 @@ class C15(Property):
             items = P.gen_items(rng, rng.randint(0, 10), faults=True)
             yield {'kind': 'items', 'c14': {'items': items, 'regs': P.gen_regs(rng), 'overridden': True, 'validate': True,
                                             'mode': rng.choice(['pull', 'push']), 'cutseed': rng.randint(0, 10 ** 6), 'version': '3.0.0'}}
+        for _ in range(40 if tier == 'quick' else 600):
+            yield {'kind': 'reuse', 'maxlens': [rng.choice([10, 3, 5, 1]) for _ in range(rng.randint(2, 3))], 'seed': rng.randint(0, 10 ** 9)}
         n = 500 if tier == 'quick' else 20000
         n_corpus = max(1, len(corpus_docs()))
         for i in range(n):
-            doc = ['corpus', rng.randrange(n_corpus)] if (corpus_docs() and rng.random() < 0.6) else ['gen', rng.randint(0, 10 ** 6)]
+            r = rng.random()
+            doc = ['corpus', rng.randrange(n_corpus)] if (corpus_docs() and r < 0.45) else \
+                (['typed', rng.randint(0, 10 ** 6)] if r < 0.8 else ['gen', rng.randint(0, 10 ** 6)])
             k = rng.choice([1, 1, 1, 2, 3])
             faults = [rng.choice(BYTE_FAULTS + TOKEN_FAULTS) if rng.random() < 0.5 else (BYTE_FAULTS + TOKEN_FAULTS)[(i + j) % (len(BYTE_FAULTS) + len(TOKEN_FAULTS))]
                       for j in range(k)]
             yield {'kind': 'fuzz', 'doc': doc, 'faults': faults, 'seed': rng.randint(0, 10 ** 9)}
+
+    def reuse_docs(self, case):
+        rng = random.Random(case['seed'])
+        # the same event type in every document, except for the maximum length of one string property
+        return [typed_doc(random.Random(case['seed'] + i), maxlen=m, et_seed=case['seed']) for i, m in enumerate(case['maxlens'])]
 
     def mutated(self, case):
         rng = random.Random(case['seed'])
@@ -256,6 +348,10 @@ class C15(Property):
         if case['kind'] == 'items':
             o = c14.PROPERTY.observe(case['c14'])
             return {'err': o['err'], 'delivered': [c for c in o['log'] if c[0] in ('h', 'fb')]}
+        if case['kind'] == 'reuse':
+            # (a push parser cannot be fed a second document: its XML parser is not renewed by close())
+            r = run_many(self.reuse_docs(case), 'pull')
+            return {'pull': r, 'push': r}
         data, cuts = self.mutated(case)
         return {'pull': run(data, 'pull', []), 'push': run(data, 'push', cuts)}
 
@@ -284,7 +380,8 @@ class C15(Property):
             return None
         for mode in ('pull', 'push'):
             r = obs[mode]
-            what = '%s parser, document %s with faults %s' % (mode, case['doc'], case['faults'])
+            what = ('%s parser, document %s with faults %s' % (mode, case['doc'], case['faults'])) if case['kind'] == 'fuzz' else \
+                ('one %s parser instance fed documents with string lengths %s' % (mode, case['maxlens']))
             if r['outcome'] == 'hang':
                 return '%s: no result after %d seconds' % (what, WATCHDOG_S)
             if r['outcome'].startswith('foreign:'):
@@ -293,6 +390,8 @@ class C15(Property):
                 return '%s: a callback received something the validation gate rejects: %s' % (what, r['invalid'][:3])
         # Note: the push parser does not notice that a document is incomplete (close() does not close the XML parser), so
         # a truncated document may "succeed" there while the pull parser reports invalid XML. The property allows either.
+        if case['kind'] == 'reuse':
+            return None
         a, b = obs['pull'], obs['push']
         if b['events'] > a['events'] and a['outcome'] == 'ok':
             return 'the push parser delivered %d events of document %s with faults %s, the pull parser accepts it with %d' % (
@@ -300,7 +399,7 @@ class C15(Property):
         return None
 
     def neighbours(self, case, rng):
-        if case['kind'] == 'items':
+        if case['kind'] in ('items', 'reuse'):
             return []
         return [dict(case, seed=rng.randint(0, 10 ** 9)) for _ in range(40)]
 
